@@ -30,6 +30,10 @@ Simple == {W(NOut(P(V("x"))), wc) : wc \in Wcs} \cup {W(NOut(P(V("e"))), wc) : w
           \cup {W(Incr("c"), wc) : wc \in WcsFew}
 Blocks == {WE(If(TrueE, b, <<>>, NoElse), wc, ewc) : b \in Inner, wc \in Wcs, ewc \in WcsFew}
           \cup {WE(If(FalseE, <<NText(" f ")>>, <<>>, [Else(b) EXCEPT !.wc = wc]), <<"", "-">>, ewc) : b \in Inner, wc \in Wcs, ewc \in WcsFew}
+          \cup {WE(If(TrueE, <<NText(" t \n")>>, <<>>, [Else(<<>>) EXCEPT !.wc = wc]), <<"", "">>, ewc) : wc \in Wcs, ewc \in WcsFew}
+          \cup {WE(For("i", RangeE(I(1), I(2)), "(1..2)", NoOpt, NoOpt, FALSE, <<NText(" l \n")>>, [Else(<<>>) EXCEPT !.wc = wc]), <<"", "">>, ewc) : wc \in WcsFew, ewc \in WcsFew}
+          \cup {WE(Case(V("x"), <<When(<<I(1)>>, <<NText(" w \n")>>)>>, [Else(<<>>) EXCEPT !.wc = wc]), <<"", "">>, ewc) : wc \in WcsFew, ewc \in WcsFew}
+          \cup {WE(Unless(FalseE, <<NText(" u \n")>>, <<>>, [Else(<<>>) EXCEPT !.wc = wc]), <<"", "">>, ewc) : wc \in WcsFew, ewc \in WcsFew}
           \cup {WE(If(FalseE, <<>>, <<[Elif(TrueE, b) EXCEPT !.wc = wc]>>, NoElse), <<"", "">>, ewc) : b \in Inner, wc \in Wcs, ewc \in WcsFew}
           \cup {WE(For("i", RangeE(I(1), I(2)), "(1..2)", NoOpt, NoOpt, FALSE, b, NoElse), wc, ewc) : b \in Inner, wc \in WcsFew, ewc \in WcsFew}
           \cup {WE(Capture("y", b), wc, ewc) : b \in Inner, wc \in WcsFew, ewc \in WcsFew}
